@@ -373,7 +373,8 @@ func decodeType(fold []byte, state *stateDecode) (*decoder, []byte, error) {
 
 		fdec := func(value *reflect.Value, packet []byte, state *stateDecode) (*reflect.Value, []byte, error) {
 			if len(packet) == 0 {
-				if n == 0 {
+				// nothing to read for an empty array - or for an array of empty arrays
+				if n == 0 || vtype.Size() == 0 {
 					return value, packet, nil
 				}
 				return nil, nil, errDecodeEOD
